@@ -403,7 +403,12 @@ pub fn render_alex(al: &ALex, rng: &mut Rng, o: &RenderOpts) -> Rendered {
     }
     r.state_name_spans.push(None);
     let wl = o.comments && al.flags.allow_wholeline_comments == Some(true);
-    for (name, excl) in al.states.iter().skip(1) {
+    // one declaration line per state, or several states of one kind on one line; one or several
+    // blanks / tabs between the keyword and the names and between names (aligned columns)
+    let sts: Vec<&(String, bool)> = al.states.iter().skip(1).collect();
+    let mut si = 0;
+    while si < sts.len() {
+        let (_, excl) = sts[si];
         if wl && rng.chance(1, 3) {
             t.push_str(&format!("// a comment{nl}"));
         }
@@ -416,10 +421,32 @@ pub fn render_alex(al: &ALex, rng: &mut Rng, o: &RenderOpts) -> Rendered {
             (false, _) => "%start",
         };
         t.push_str(kw);
-        t.push_str(if rng.chance(1, 4) { "\t" } else { " " });
-        let st = t.len();
-        t.push_str(name);
-        r.state_name_spans.push(Some((st, t.len())));
+        let mut first = true;
+        loop {
+            // lrlex splits the names at every single white-space character, so two blanks between two
+            // names are refused (empty name); several are accepted between the keyword and the first name
+            let sep = match if first { rng.below(6) } else { 4 + rng.below(2) * 0 + if rng.chance(1, 3) { 6 } else { 0 } } {
+                0 => "\t",
+                1 => "   ",
+                2 => " \t ",
+                3 => "\t\t",
+                10 => "\t",
+                _ => " ",
+            };
+            first = false;
+            t.push_str(sep);
+            let st = t.len();
+            t.push_str(&sts[si].0);
+            r.state_name_spans.push(Some((st, t.len())));
+            si += 1;
+            if si < sts.len() && sts[si].1 == *excl && rng.chance(1, 2) {
+                continue;
+            }
+            break;
+        }
+        if rng.chance(1, 6) {
+            t.push_str(" ");
+        }
         t.push_str(nl);
     }
     t.push_str("%%");
